@@ -200,6 +200,9 @@ func (lit *levelIterator) Seek(id []byte) error {
 		lit.value = copyBytes(lit.it.Value())
 		return nil
 	}
+	// forget the entry of an earlier position: Valid() reports on this seek
+	lit.key = nil
+	lit.value = nil
 	return fmt.Errorf("Invalid")
 }
 
